@@ -755,7 +755,7 @@ def part_index(run):
 # (3) stale index: explicit-state BFS
 # =============================================================================================
 OPS = ['write:W1', 'write:W2', 'write:W3', 'index', 'append:r1', 'append:r2', 'del:first', 'del:last', 'edit:alt',
-       'edit:alt-last', 'edit:tx', 'edit:hdr', 'swap', 'touch', 'rmidx']
+       'edit:alt-last', 'edit:tx', 'edit:hdr', 'swap', 'touch', 'rmidx', 'eol:crlf']
 
 
 def bfs_contents():
@@ -792,6 +792,8 @@ def env_edit(gvf: bytes, op: str, C):
         return C[op[6:]]
     if op.startswith('append:'):
         return gvf + C[op[7:]]
+    if op == 'eol:crlf':            # line terminators only (unix2dos / a transfer in text mode): every byte offset moves
+        return gvf.replace(b'\n', b'\r\n') if b'\r' not in gvf else None
     if op == 'del:first':
         return _join(h, r[1:]) if r else None
     if op == 'del:last':
